@@ -446,7 +446,7 @@ func buildAtlases() {
 		tag := 100
 		for _, s := range structs {
 			b := atlas.BuildEntry(s)
-			if tags && (reflect.TypeOf(s) == reflect.TypeOf(Inner{}) || reflect.TypeOf(s) == reflect.TypeOf(Circle{})) {
+			if tags && (reflect.TypeOf(s) == reflect.TypeOf(Inner{}) || reflect.TypeOf(s) == reflect.TypeOf(Circle{}) || reflect.TypeOf(s) == reflect.TypeOf(TwoMaps{})) {
 				b = b.UseTag(tag)
 				tag += 1000
 			}
@@ -485,6 +485,13 @@ func buildAtlases() {
 	// 4: like 1 plus an entry for the struct reached through an embedded pointer
 	ep := atlas.BuildEntry(EmbPtr{}).StructMap().Autogenerate().Complete()
 	mk(4, atlas.KeySortMode_Default, atlas.KeySortMode_Default, false, ep)
+	// 5: DERIVED from atlas 1 (which stays in use) with another default map order: same entries, independent configuration
+	for _, a1 := range atlases {
+		if a1.id == 1 {
+			d := a1.atl.WithMapMorphism(atlas.MapMorphism{KeySortMode: atlas.KeySortMode_RFC7049})
+			atlases = append(atlases, &atlasCfg{id: 5, atl: d, entries: a1.entries, nReg: a1.nReg, sort: atlas.KeySortMode_RFC7049})
+		}
+	}
 }
 
 // freshAtlases builds a new set of the hand-made atlas configurations (same ids, new Atlas values and entries).
@@ -554,7 +561,7 @@ func describeEntry(e *atlas.AtlasEntry, pool []*atlas.AtlasEntry) string {
 
 // one atlas per shape family: autogenerated entries for every struct type of the family
 func buildShapeAtlases() {
-	if len(atlases) > 5 {
+	if len(atlases) > 6 {
 		return
 	}
 	for k, fam := range shapeFamilies {
